@@ -192,8 +192,8 @@ def ivp_system(chk):
       for K in (1, 2, 3):
           captured = {}
 
-          def solve_ivp(eng_, func, span, y0=None, **kw):
-              captured.update(func=func, span=span, y0=y0, kw=kw)
+          def solve_ivp(eng_, fun=None, t_span=None, y0=None, **kw):          # scipy's own parameter names (keyword calls)
+              captured.update(func=fun, span=t_span, y0=y0, kw=kw)
               raise I.PathEnd("reached solve_ivp")
 
           def lin_solve(eng_, A, b):
@@ -350,8 +350,8 @@ def bvp_system(chk):
             ders = ders[1:] + ders[:1]
             cvals = [z3.Real(f"C{j}") for j in range(K)]
 
-            def solve_bvp(eng_, func, bc, x, y=None, **kw):
-                captured.update(func=func, bc=bc, x=x, y=y, kw=kw)
+            def solve_bvp(eng_, fun=None, bc=None, x=None, y=None, **kw):       # scipy's own parameter names (keyword calls)
+                captured.update(func=fun, bc=bc, x=x, y=y, kw=kw)
                 raise I.PathEnd("reached solve_bvp")
 
             def thunk(eng_, K=K, with_tf=with_tf):
